@@ -196,14 +196,14 @@ def _run_chunk(chunk):
         out.append(r)
     # compress: only keep per-case detail where needed
     agg = {"n": len(chunk), "checks": 0, "nontrivial": 0, "outcomes": {}, "viol": []}
-    for case, r in zip(chunk, out):
+    for ci, (case, r) in enumerate(zip(chunk, out)):
         agg["checks"] += r["checks"]
         agg["nontrivial"] += 1 if r["nontrivial"] else 0
         o = r["outcome"]
         o = o if isinstance(o, str) else jdump(o)
         agg["outcomes"][o] = agg["outcomes"].get(o, 0) + 1
         for v in r["violations"]:
-            agg["viol"].append((case, v))
+            agg["viol"].append((case, v, ci))
     return agg
 
 
@@ -227,7 +227,10 @@ class Pool:
             self.pool = None
         else:
             ctx = mp.get_context("fork")
-            self.pool = ctx.Pool(nproc, initializer=_worker_init, initargs=(modname,))
+            # maxtasksperchild=1: every task (chunk of cases) runs in a freshly forked child, so process-global state of the
+            # library never leaks from one chunk into the next and "the cases of the chunk up to the failing one" is an exact,
+            # replayable history for any violation that depends on earlier calls in the same process
+            self.pool = ctx.Pool(nproc, initializer=_worker_init, initargs=(modname,), maxtasksperchild=1)
 
     def imap(self, fn, items, chunksize=1):
         if self.pool is None:
@@ -252,6 +255,7 @@ class Report:
         self.outcomes = {}
         self.samples = []
         self.viol = {}  # finding -> (case, msg, count)
+        self.prefix = {}  # finding -> cases run before it in the same (fresh) worker process
         self.exhaustive = True
         self.caps = []
         self.extra = {}
@@ -266,10 +270,11 @@ class Report:
         self.nontrivial += agg["nontrivial"]
         for k, n in agg["outcomes"].items():
             self.outcomes[k] = self.outcomes.get(k, 0) + n
-        for case, v in agg["viol"]:
+        for case, v, ci in agg["viol"]:
             f = v["finding"]
             if f not in self.viol:
                 self.viol[f] = [case, v["msg"], 0]
+                self.prefix[f] = list(chunk[:ci])
             self.viol[f][2] += 1
         self._last = chunk[-2:] if chunk else []
 
@@ -305,10 +310,13 @@ def scope_explore(mod, tier, seed, report, pool, chunk=None):
 # ----------------------------------------------------------------------------- main entry
 
 
-def write_replay(pid, finding, case, msg):
+def write_replay(pid, finding, case, msg, prefix=None):
     d = os.path.join(VERIF, "replays", pid)
     os.makedirs(d, exist_ok=True)
     rec = {"property": pid, "finding": finding, "case": case, "msg": msg}
+    if prefix:
+        rec["prefix"] = prefix
+        rec["note"] = "the violation only shows after the prefix cases have run in the same process (process-global state)"
     path = os.path.join(d, "%s.json" % sha([finding, case]))
     with open(path, "w") as f:
         f.write(json.dumps(rec, indent=1, default=_jsonable))
@@ -338,6 +346,8 @@ def replay(pid, path, quiet=False):
         mod.worker_init()
     rec = json.load(open(path))
     case = rec["case"]
+    for pc in rec.get("prefix", []):  # history inside one process
+        _safe_run(mod, pc)
     if hasattr(mod, "replay_case"):
         r = mod.replay_case(case)
     else:
@@ -455,11 +465,16 @@ def main(argv=None):
         tag = ""
         if len([x for x in new if x[0] <= f]) <= 4 and os.environ.get("VERIF_NOCONFIRM") != "1":
             okc, outs = confirm_replay(pid, path)
+            if not okc and report.prefix.get(f):
+                # not reproducible in isolation: replay the cases that preceded it in its worker process as well
+                path = write_replay(pid, f, case, msg, prefix=report.prefix[f])
+                okc, outs = confirm_replay(pid, path)
+                tag = " needs-process-history"
             if not okc:
                 print("HARNESS-ERROR property=%s finding=%s replay not reproducible: %s" % (pid, f, outs))
                 rc = max(rc, 2)
                 continue
-            tag = " confirmed=2/2"
+            tag = " confirmed=2/2" + tag
         print("VIOLATION property=%s replay=%s finding=%s cases=%d%s :: %s" % (pid, path, f, n, tag, msg[:300]))
         rc = max(rc, 1)
     path = write_evidence(mod, report, len(new))
